@@ -42,6 +42,9 @@ def run(tier, seed, replay_rows=None):
     ck.assumptions = ["Go atomics sequentially consistent; interleavings inside a segment (between two yield points) are "
                       "explored by TLC on the specification only",
                       "min/max under concurrency are not asserted (documented as approximate)"]
+    # unbounded: collect-by-swap loses and double counts nothing for ANY number of recorders and snapshots (inductive
+    # invariant, Apalache); the original read-then-reset collect (defect bd554c8) must not be inductive
+    vlib.inductive(ck, "CollectInd", mutant="CollectIndMut")
     kw = dict(workers=8, timeout=600)
     # mutant configurations must fail on the specification (non-vacuity of the invariants)
     for cfg in ("Mut_ProgressStats_ReadReset.cfg", "Mut_ProgressStats_Unlocked.cfg"):
